@@ -19,6 +19,7 @@ const (
 	aSend = iota
 	aLocalClose
 	aStartAgain
+	aSetHandler // Session.UpdateHandler
 	aPeerClose
 	aPeerRead
 	aPeerByte
@@ -27,9 +28,13 @@ const (
 	aSendStep
 	aSendLost
 	aRecvEnd
-	lStart  // global labels
-	lArrive // a client connects
-	lAccept // internal: the accept loop takes the oldest waiting connection
+	lStart      // global labels
+	lArrive     // a client connects
+	lAccept     // internal: the accept loop takes the oldest waiting connection
+	lAcceptFail // internal: ln.Accept returned a temporary error
+	lFdExhaust  // environment: no file descriptor left for Accept
+	lFdRestore
+	lSrvClose // Server.Close
 )
 
 const (
@@ -48,20 +53,22 @@ const (
 )
 
 type label struct {
-	kind    int
-	i       int
-	tr      int    // lStart
-	reads   bool   // lStart
-	bs      []byte // aSend
-	ok      bool   // aSend
-	k       int    // fault kind
-	real    []byte // aSend: the bytes actually handed to Session.Send when they were prepared in advance
-	par     bool   // the label belongs to a phase whose calls are made concurrently from different goroutines
-	natural bool   // the fault is not injected: the configured deadline of the manager fires by itself
+	kind      int
+	i         int
+	tr        int    // lStart
+	reads     bool   // lStart
+	bs        []byte // aSend
+	ok        bool   // aSend
+	k         int    // fault kind
+	h         int    // lStart / aSetHandler: handler id (0: the manager's)
+	waitRetry bool   // lFdRestore: first wait until the accept loop is seen backing off after a failed Accept
+	real      []byte // aSend: the bytes actually handed to Session.Send when they were prepared in advance
+	par       bool   // the label belongs to a phase whose calls are made concurrently from different goroutines
+	natural   bool   // the fault is not injected: the configured deadline of the manager fires by itself
 }
 
 func (l label) internal() bool {
-	return l.kind == aSendStep || l.kind == aSendLost || l.kind == aRecvEnd || l.kind == lAccept
+	return l.kind == aSendStep || l.kind == aSendLost || l.kind == aRecvEnd || l.kind == lAccept || l.kind == lAcceptFail
 }
 
 var rkNames = []string{"RErr", "RTimeout", "RHandlerErr", "RPanic", "RPanicNil", "RPanicErr", "RPanicCustom", "RGoexit"}
@@ -72,11 +79,21 @@ func (l label) coq() string {
 	on := func(a string) string { return fmt.Sprintf("On %d (%s)", l.i, a) }
 	switch l.kind {
 	case lStart:
-		return fmt.Sprintf("Start %d %s %s", l.i, trNames[l.tr], vh.CoqBool(l.reads))
+		return fmt.Sprintf("Start %d %s %s %d", l.i, trNames[l.tr], vh.CoqBool(l.reads), l.h)
 	case lArrive:
 		return fmt.Sprintf("Arrive %d", l.i)
 	case lAccept:
 		return fmt.Sprintf("Accept %d", l.i)
+	case lAcceptFail:
+		return "AcceptFail"
+	case lFdExhaust:
+		return "FdExhaust"
+	case lFdRestore:
+		return "FdRestore"
+	case lSrvClose:
+		return "SrvClose"
+	case aSetHandler:
+		return on(fmt.Sprintf("SetHandler %d", l.h))
 	case aSend:
 		return on(fmt.Sprintf("Send %s %s", vh.CoqBytes(l.bs), vh.CoqBool(l.ok)))
 	case aLocalClose:
@@ -106,7 +123,20 @@ func (l label) coq() string {
 func (l label) String() string {
 	switch l.kind {
 	case lStart:
+		if l.h != 0 {
+			return fmt.Sprintf("Start(%d,%s,reads=%v,handler=%d)", l.i, trNames[l.tr], l.reads, l.h)
+		}
 		return fmt.Sprintf("Start(%d,%s,reads=%v)", l.i, trNames[l.tr], l.reads)
+	case lAcceptFail:
+		return "AcceptFail"
+	case lFdExhaust:
+		return "FdExhaust"
+	case lFdRestore:
+		return "FdRestore"
+	case lSrvClose:
+		return "SrvClose"
+	case aSetHandler:
+		return fmt.Sprintf("UpdateHandler(%d,%d)", l.i, l.h)
 	case lArrive:
 		return fmt.Sprintf("Arrive(%d)", l.i)
 	case lAccept:
@@ -147,26 +177,33 @@ type sessM struct {
 	peerReads bool
 	rcvd      int
 	inbox     []byte
+	hid       int // handler in charge
+	exitH     int // handler whose OnExit ran
 }
 
 type stM struct {
 	maxc, cnt int64
 	ss        []sessM
-	pend      int // connections waiting in the listener's queue
+	pend      int  // connections waiting in the listener's queue
+	amax      int  // WithAccMaxRetry
+	adead     bool // the accept loop has ended
+	aretry    int
+	fdlim     bool
 }
 
 func (t stM) clone() stM {
-	n := stM{maxc: t.maxc, cnt: t.cnt, ss: make([]sessM, len(t.ss)), pend: t.pend}
+	n := t
+	n.ss = make([]sessM, len(t.ss))
 	copy(n.ss, t.ss) // slices inside are never mutated in place (always re-sliced or appended on a fresh copy)
 	return n
 }
 
 func (t stM) key() string {
 	var b strings.Builder
-	fmt.Fprintf(&b, "%d|%d|", t.cnt, t.pend)
+	fmt.Fprintf(&b, "%d|%d|%v%d%v|", t.cnt, t.pend, t.adead, t.aretry, t.fdlim)
 	for _, s := range t.ss {
-		fmt.Fprintf(&b, "%v%v%v%v%v%v%d%v%v%v%v,%d,%d,%x;", s.started, s.qclosed, s.copen, s.sendl, s.recvl, s.exited, s.onexit,
-			s.wfail, s.rcause, s.peerOpen, s.peerReads, s.rcvd, len(s.q), s.inbox)
+		fmt.Fprintf(&b, "%v%v%v%v%v%v%d%v%v%v%v,%d,%d,%x,%d,%d;", s.started, s.qclosed, s.copen, s.sendl, s.recvl, s.exited, s.onexit,
+			s.wfail, s.rcause, s.peerOpen, s.peerReads, s.rcvd, len(s.q), s.inbox, s.hid, s.exitH)
 		for _, x := range s.q {
 			fmt.Fprintf(&b, "%x.", x)
 		}
@@ -183,6 +220,7 @@ func quitM(s sessM) (sessM, bool) {
 	s.onexit++
 	s.qclosed = true
 	s.copen = false
+	s.exitH = s.hid
 	return s, true
 }
 
@@ -209,6 +247,9 @@ func sessStep(s sessM, l label) (sessM, bool, bool) {
 		s.qclosed = true
 		return s, false, true
 	case aStartAgain:
+		return s, false, true
+	case aSetHandler:
+		s.hid = l.h
 		return s, false, true
 	case aPeerClose:
 		if !s.peerOpen {
@@ -290,8 +331,8 @@ func sessStep(s sessM, l label) (sessM, bool, bool) {
 	panic("sessStep")
 }
 
-func freshM(tr int, reads bool) sessM {
-	return sessM{tr: tr, started: true, copen: true, sendl: true, recvl: true, peerOpen: true, peerReads: reads}
+func freshM(tr int, reads bool, h int) sessM {
+	return sessM{tr: tr, started: true, copen: true, sendl: true, recvl: true, peerOpen: true, peerReads: reads, hid: h}
 }
 
 func stepM(t stM, l label) (stM, bool) {
@@ -302,7 +343,7 @@ func stepM(t stM, l label) (stM, bool) {
 		}
 		n := t.clone()
 		n.cnt++
-		n.ss = append(n.ss, freshM(l.tr, l.reads))
+		n.ss = append(n.ss, freshM(l.tr, l.reads, l.h))
 		return n, true
 	case lArrive:
 		if l.i != len(t.ss)+t.pend {
@@ -311,17 +352,49 @@ func stepM(t stM, l label) (stM, bool) {
 		n := t.clone()
 		n.pend++
 		return n, true
-	case lAccept:
-		if l.i != len(t.ss) || t.pend == 0 {
+	case lAcceptFail:
+		if t.pend == 0 || t.adead || !t.fdlim {
 			return t, false
 		}
 		n := t.clone()
+		n.aretry++
+		if n.amax <= n.aretry {
+			n.adead = true
+		}
+		return n, true
+	case lFdExhaust:
+		if t.fdlim {
+			return t, false
+		}
+		n := t.clone()
+		n.fdlim = true
+		return n, true
+	case lFdRestore:
+		if !t.fdlim {
+			return t, false
+		}
+		n := t.clone()
+		n.fdlim = false
+		return n, true
+	case lSrvClose:
+		if t.pend != 0 {
+			return t, false
+		}
+		n := t.clone()
+		n.adead = true
+		return n, true
+	case lAccept:
+		if l.i != len(t.ss) || t.pend == 0 || t.adead || t.fdlim {
+			return t, false
+		}
+		n := t.clone()
+		n.aretry = 0
 		n.pend--
 		if t.maxc <= t.cnt {
 			n.ss = append(n.ss, sessM{tr: trTcp, peerOpen: true, peerReads: true})
 		} else {
 			n.cnt++
-			n.ss = append(n.ss, freshM(trTcp, true))
+			n.ss = append(n.ss, freshM(trTcp, true, 0))
 		}
 		return n, true
 	}
@@ -353,7 +426,7 @@ func quietM(s sessM) bool {
 }
 
 func stableM(t stM) bool {
-	if t.pend != 0 {
+	if t.pend != 0 && !t.adead {
 		return false
 	}
 	for _, s := range t.ss {
@@ -375,20 +448,22 @@ type obs1 struct {
 	Rcvd    int    `json:"rcvd"`
 	Inbox   []byte `json:"-"`
 	InboxS  string `json:"inbox"`
+	ExitH   int    `json:"exit_handler"`
 }
 
 type obsAll struct {
 	Cnt  int64  `json:"count"`
+	Loop bool   `json:"accept_loop_alive"`
 	Sess []obs1 `json:"sessions"`
 }
 
 func (o obs1) eq(p obs1) bool {
 	return o.Started == p.Started && o.OnExit == p.OnExit && o.Closed == p.Closed && o.SendL == p.SendL && o.RecvL == p.RecvL &&
-		o.Rcvd == p.Rcvd && string(o.Inbox) == string(p.Inbox)
+		o.Rcvd == p.Rcvd && string(o.Inbox) == string(p.Inbox) && o.ExitH == p.ExitH
 }
 
 func (o obsAll) eq(p obsAll) bool {
-	if o.Cnt != p.Cnt || len(o.Sess) != len(p.Sess) {
+	if o.Cnt != p.Cnt || o.Loop != p.Loop || len(o.Sess) != len(p.Sess) {
 		return false
 	}
 	for i := range o.Sess {
@@ -400,16 +475,19 @@ func (o obsAll) eq(p obsAll) bool {
 }
 
 func obsOfM(t stM) obsAll {
-	o := obsAll{Cnt: t.cnt}
+	o := obsAll{Cnt: t.cnt, Loop: !t.adead}
 	for _, s := range t.ss {
-		o.Sess = append(o.Sess, obs1{Started: s.started, OnExit: s.onexit, Closed: !s.copen, SendL: b2i(s.sendl), RecvL: b2i(s.recvl), Rcvd: s.rcvd, Inbox: s.inbox})
+		o.Sess = append(o.Sess, obs1{Started: s.started, OnExit: s.onexit, Closed: !s.copen, SendL: b2i(s.sendl), RecvL: b2i(s.recvl), Rcvd: s.rcvd, Inbox: s.inbox, ExitH: s.exitH})
+	}
+	for j := 0; j < t.pend; j++ {
+		o.Sess = append(o.Sess, obs1{}) // still waiting in the listener's queue
 	}
 	return o
 }
 
 func (o obs1) coq() string {
-	return fmt.Sprintf("mkO %s %d%%nat %s %d%%nat %d%%nat %d%%nat %s", vh.CoqBool(o.Started), o.OnExit, vh.CoqBool(o.Closed), o.SendL,
-		o.RecvL, o.Rcvd, vh.CoqBytes(o.Inbox))
+	return fmt.Sprintf("mkO %s %d%%nat %s %d%%nat %d%%nat %d%%nat %s %d%%nat", vh.CoqBool(o.Started), o.OnExit, vh.CoqBool(o.Closed), o.SendL,
+		o.RecvL, o.Rcvd, vh.CoqBytes(o.Inbox), o.ExitH)
 }
 
 func (o obsAll) coq() string {
@@ -482,6 +560,11 @@ func explore(t0 stM, issued []label, par bool, guide *obsAll) []outcome {
 			if !par {
 				break // a sequence: only the next one may take effect
 			}
+		}
+		// a failing Accept is tried last, so that the run found for an outcome is one with as few failures as possible
+		// (Coq compares their number with what the elapsed time allows)
+		if n, ok := stepM(t, label{kind: lAcceptFail}); ok {
+			rec(n, done, append(path, label{kind: lAcceptFail}))
 		}
 	}
 	rec(t0, 0, nil)
